@@ -166,7 +166,21 @@ func (x *Exec) writeRoot(st *State, a *Addr, v Term) {
 	case akField, akCell, akGhost:
 		x.heapSet(st, name, mkStore(h, a.Ref, v))
 	case akElem:
-		inner := Term{app("select", h, a.Ref), arraySort(x.S.Idx(), es)}
+		asrt := arraySort(x.S.Idx(), es)
+		inner := Term{app("select", h, a.Ref), asrt}
+		if x.inQuant == 0 && !x.discover {
+			// name both versions of the backing array and state read-over-write with a
+			// trigger on the OLD array, so that facts known about elements of the old
+			// version reach quantifiers that mention the new one (E-matching needs the
+			// select terms to exist)
+			inner = x.declareEq("arr", inner)
+			ni := x.declareEq("arr", mkStore(inner, a.Idx, v))
+			x.emit(fmt.Sprintf("(assert (forall ((q!w %s)) (! (= (select %s q!w) (ite (= q!w %s) %s (select %s q!w))) :pattern ((select %s q!w)))))",
+				x.S.Idx(), ni.S, a.Idx.S, v.S, inner.S, inner.S))
+			x.assume(mkEq(mkSelect(ni, a.Idx, es), v))
+			x.heapSet(st, name, mkStore(h, a.Ref, ni))
+			return
+		}
 		x.heapSet(st, name, mkStore(h, a.Ref, mkStore(inner, a.Idx, v)))
 	default:
 		x.heapSet(st, name, v)
